@@ -151,7 +151,7 @@ def handle (sess : Option Sess) (toks : List String) : Option Sess × String :=
       let bits := mask.toList.toArray
       let nI := irreps.numIrreps
       -- offset of block k in the flat list of copies = its `irv` counter
-      let offs := ((blocksFrom false false irreps 0 0 0 0 0 0).map (·.irv)).toArray
+      let offs := ((dblocks irreps).map (·.irv)).toArray
       let m : Nat → Nat → Nat → Bool := fun b k u => bits.getD (b * nI + offs.getD k 0 + u) '0' == '1'
       match shape with
       | [] => some "error"
